@@ -83,6 +83,13 @@ impl SequenceNumber {
 @@ensures sn.plus_1
     r.0 == self.0 + 1
 @@end
+@@extract const src/structure/sequence_number.rs SequenceNumber::MAX_ACCEPTED
+@@extract fn src/structure/sequence_number.rs SequenceNumber::is_acceptable
+@@ret r
+@@ensures sn.acceptable
+    // accepted from the network iff at most i64::MAX / 2 (headroom for window arithmetic)
+    r == (self.0 <= 0x3FFF_FFFF_FFFF_FFFF)
+@@end
 @@extract fn src/structure/sequence_number.rs SequenceNumber::range_inclusive
 @@ret r
 @@ensures sn.range_inclusive
